@@ -25,7 +25,8 @@ pub fn drive(t: &mut Tracer, tier: &str, seed: u64) {
     let mut n = 0u64;
     let key = key_from(&{ let mut d = rng.bytes(32); d[0] &= 0x7f; d }).unwrap();
     let pk = key.sk.public_key.clone();
-    let lens: Vec<usize> = if thorough { (0..=200).collect() } else { let mut v: Vec<usize> = (0..=70).collect(); v.extend([96, 97, 98, 99, 100, 127, 128, 129, 130, 200]); v };
+    // every length 0..=200 (thorough: 0..=300); quick: 0..=70 and ladders around 100, 128, 200 and 256 (fixed-size scratch buffers)
+    let lens: Vec<usize> = if thorough { (0..=300).collect() } else { let mut v: Vec<usize> = (0..=70).collect(); v.extend([96, 97, 98, 99, 100]); v.extend(118..=136); v.extend([200, 300]); v.extend(245..=262); v };
     // --- every length x content, per entry point ---
     for len in &lens {
         for (data, fault) in contents(&mut rng, *len) {
